@@ -28,7 +28,7 @@ fn ok(tg: &str) -> String {
 
 pub const PROGRAMS: &[&str] = &[
     "q-denied", "q-multi-first", "q-multi-last", "ext-denied", "ext-denied-then-allowed-in-batch", "ext-allowed-then-denied-in-batch", "txn-q-denied",
-    "txn-ext-denied-then-batch", "named-denied-then-bind", "intercept", "denied-parse-only",
+    "txn-ext-denied-then-batch", "named-denied-then-bind", "intercept", "denied-parse-only", "ext-intercept", "txn-ext-intercept", "ext-allowed-then-intercept",
 ];
 
 pub fn scenario(prog: &str, enabled: bool, cache: usize) -> Scenario {
@@ -105,6 +105,24 @@ pub fn scenario(prog: &str, enabled: bool, cache: usize) -> Scenario {
         }
         "intercept" => {
             s = s.q(INTERCEPT_QUERY).q(&INTERCEPT_QUERY.to_uppercase()).q(&ok(&tg()));
+        }
+        "ext-intercept" => {
+            // the verdict is found at Parse, acted on at Sync: no server is held in between
+            let mut b = pbe("", INTERCEPT_QUERY);
+            b.extend(sync.clone());
+            s = s.send_z(b, "P(intercepted) B E S").q(&ok(&tg()));
+        }
+        "txn-ext-intercept" => {
+            let mut b = pbe("", INTERCEPT_QUERY);
+            b.extend(sync.clone());
+            s = s.q("BEGIN").q(&ok(&tg())).send_z(b, "P(intercepted) B E S").q("COMMIT").q(&ok(&tg()));
+        }
+        "ext-allowed-then-intercept" => {
+            let mut b0 = pbe("", &ok(&tg()));
+            b0.extend(sync.clone());
+            let mut b = pbe("", INTERCEPT_QUERY);
+            b.extend(sync.clone());
+            s = s.send_z(b0, "P B E S").send_z(b, "P(intercepted) B E S").q(&ok(&tg()));
         }
         "denied-parse-only" => {
             // Parse of a denied statement, then the client changes its mind: Sync, then an allowed simple query
@@ -212,26 +230,27 @@ pub fn oracle(sc: &Scenario, out: &Outcome) -> Vec<Violation> {
     let expected_errs = match (enabled, prog.as_str()) {
         (false, _) => 0,
         (true, "q-denied") => 2,
-        (true, "intercept") => 0,
+        (true, p) if p.contains("intercept") => 0,
         (true, _) => 1,
     };
     if enabled && errs < expected_errs {
         vs.push(v("C19.no-error", format!("C19.no-error:{}", ctx), format!("expected at least {} permission errors, client saw {}", expected_errs, errs)));
     }
-    if !enabled && (got_denied_text == 0 || (prog == "intercept" && intercept_forwarded == 0)) && prog != "intercept" {
+    if !enabled && got_denied_text == 0 && !prog.contains("intercept") {
         vs.push(v("C19.blocked-when-disabled", format!("C19.blocked-when-disabled:{}", ctx), "plugins are disabled but the statement did not reach the server".into()));
     }
-    if !enabled && prog == "intercept" && intercept_forwarded == 0 {
+    if !enabled && prog.contains("intercept") && intercept_forwarded == 0 {
         vs.push(v("C19.intercepted-when-disabled", format!("C19.intercepted-when-disabled:{}", ctx), "plugins are disabled but the query was not forwarded".into()));
     }
-    if enabled && prog == "intercept" {
+    if enabled && prog.contains("intercept") {
         let rows: Vec<String> = client_msgs(log, 0)
             .iter()
             .filter(|(_, m)| m.code == b'D' && m.row_cols().len() == 2)
             .map(|(_, m)| m.row_cols().iter().map(|c| String::from_utf8_lossy(c.as_deref().unwrap_or(b"NULL")).to_string()).collect::<Vec<_>>().join("|"))
             .collect();
-        if rows != vec!["db|{public}".to_string(), "db|{public}".to_string()] {
-            vs.push(v("C19.intercept-rows", format!("C19.intercept-rows:{}", ctx), format!("intercepted rows {:?}, configured [db|{{public}}] twice", rows)));
+        let want = if prog == "intercept" { 2 } else { 1 };
+        if rows != vec!["db|{public}".to_string(); want] {
+            vs.push(v("C19.intercept-rows", format!("C19.intercept-rows:{}", ctx), format!("intercepted rows {:?}, configured [db|{{public}}] {} time(s)", rows, want)));
         }
     }
     // no server stays pinned: the probe client (pool_size 1) is served and nothing is checked out at the end
@@ -268,7 +287,7 @@ pub fn build(tier: &str) -> SimCheck {
         oracle: Box::new(oracle),
         bound: 0,
         limits: Limits::default(),
-        rule: "sim: 11 programs (denied simple query, denied part first/last of a multi-statement query, denied extended batch, denied + allowed statements in one batch in both orders, inside a transaction over both protocols, denied named statement bound later, intercept, denied Parse abandoned) x plugins on/off x statement caching off/on; then a second client and a pooler-state probe".into(),
+        rule: "sim: 14 programs (denied simple query, denied part first/last of a multi-statement query, denied extended batch, denied + allowed statements in one batch in both orders, inside a transaction over both protocols, denied named statement bound later, intercept over the simple protocol, over the extended protocol outside / inside a transaction / after an allowed batch, denied Parse abandoned) x plugins on/off x statement caching off/on; then a second client and a pooler-state probe".into(),
         assumptions: vec!["denied text recognised on the backend by the listed table reference it contains".into()],
     }
 }
